@@ -384,6 +384,7 @@ func c12Normalise(c *Ctx, p *Prog, sgr, x11, bm *ssa.Function) {
 		}
 		// button: every source passes through &^ 32
 		okB := false
+		bound := map[*ssa.Parameter]ssa.Value{}
 		visiting := map[ssa.Value]bool{}
 		var walk func(v ssa.Value, d int) bool
 		walk = func(v ssa.Value, d int) bool {
@@ -417,6 +418,11 @@ func c12Normalise(c *Ctx, p *Prog, sgr, x11, bm *ssa.Function) {
 				if h == nil || h.Pkg != p.Tcell || len(h.Blocks) == 0 || h.Signature.Results().Len() != 1 {
 					return false
 				}
+				for i, pa := range h.Params {
+					if i < len(x.Call.Args) {
+						bound[pa] = x.Call.Args[i]
+					}
+				}
 				rets := returnsOf(h)
 				for _, r := range rets {
 					if !walk(derefCell(resultOf(r, 0)), d+1) {
@@ -424,6 +430,11 @@ func c12Normalise(c *Ctx, p *Prog, sgr, x11, bm *ssa.Function) {
 					}
 				}
 				return len(rets) > 0
+			case *ssa.Parameter:
+				// a helper's parameter: the argument it was called with
+				if a, ok := bound[x]; ok {
+					return walk(a, d+1)
+				}
 			}
 			return false
 		}
